@@ -112,6 +112,14 @@ void fp12_pck(fp12_t c, const fp12_t a) {
 
 int fp12_upk(fp12_t c, const fp12_t a) {
 	if (fp2_is_zero(a[0][0]) && fp2_is_zero(a[1][1])) {
+		if (fp2_is_zero(a[1][0]) && fp2_is_zero(a[0][2])) {
+			/* g2 = g3 = 0 is the compressed form of the identity only. */
+			if (fp2_is_zero(a[0][1]) && fp2_is_zero(a[1][2])) {
+				fp12_set_dig(c, 1);
+				return 1;
+			}
+			return 0;
+		}
 		fp12_back_cyc(c, a);
 		if (fp12_test_cyc(c)) {
 			return 1;
@@ -183,6 +191,14 @@ void fp18_pck(fp18_t c, const fp18_t a) {
 
 int fp18_upk(fp18_t c, const fp18_t a) {
 	if (fp2_is_zero(a[0][0]) && fp2_is_zero(a[1][1])) {
+		if (fp3_is_zero(a[1][0]) && fp3_is_zero(a[0][2])) {
+			/* g2 = g3 = 0 is the compressed form of the identity only. */
+			if (fp3_is_zero(a[0][1]) && fp3_is_zero(a[1][2])) {
+				fp18_set_dig(c, 1);
+				return 1;
+			}
+			return 0;
+		}
 		fp18_back_cyc(c, a);
 		if (fp18_test_cyc(c)) {
 			return 1;
@@ -205,6 +221,14 @@ void fp24_pck(fp24_t c, const fp24_t a) {
 
 int fp24_upk(fp24_t c, const fp24_t a) {
 	if (fp4_is_zero(a[0][0]) && fp4_is_zero(a[0][1])) {
+		if (fp4_is_zero(a[1][0]) && fp4_is_zero(a[1][1])) {
+			/* g2 = g3 = 0 is the compressed form of the identity only. */
+			if (fp4_is_zero(a[2][0]) && fp4_is_zero(a[2][1])) {
+				fp24_set_dig(c, 1);
+				return 1;
+			}
+			return 0;
+		}
 		fp24_back_cyc(c, a);
 		if (fp24_test_cyc(c)) {
 			return 1;
@@ -227,6 +251,14 @@ void fp48_pck(fp48_t c, const fp48_t a) {
 
 int fp48_upk(fp48_t c, const fp48_t a) {
 	if (fp8_is_zero(a[0][0]) && fp8_is_zero(a[1][1])) {
+		if (fp8_is_zero(a[1][0]) && fp8_is_zero(a[0][2])) {
+			/* g2 = g3 = 0 is the compressed form of the identity only. */
+			if (fp8_is_zero(a[0][1]) && fp8_is_zero(a[1][2])) {
+				fp48_set_dig(c, 1);
+				return 1;
+			}
+			return 0;
+		}
 		fp48_back_cyc(c, a);
 		if (fp48_test_cyc(c)) {
 			return 1;
@@ -249,6 +281,14 @@ void fp54_pck(fp54_t c, const fp54_t a) {
 
 int fp54_upk(fp54_t c, const fp54_t a) {
 	if (fp9_is_zero(a[0][0]) && fp9_is_zero(a[0][1])) {
+		if (fp9_is_zero(a[1][0]) && fp9_is_zero(a[1][1])) {
+			/* g2 = g3 = 0 is the compressed form of the identity only. */
+			if (fp9_is_zero(a[2][0]) && fp9_is_zero(a[2][1])) {
+				fp54_set_dig(c, 1);
+				return 1;
+			}
+			return 0;
+		}
 		fp54_back_cyc(c, a);
 		if (fp54_test_cyc(c)) {
 			return 1;
